@@ -411,6 +411,59 @@ def waits_part(ctx, rp):
     ctx.obligation('Pilot.wait for explicit states before the pilot runs through its states: only its end fails its tasks (%d runs)' % n, 'tie', True, '')
 
 
+def run_shared_descr(rp, order, reuse):
+    """the application submits one task to each of three pilots through the REAL TaskManager.submit_tasks, re-using ONE
+    TaskDescription object (uid and pilot are set before each submission - `pilot.submit_tasks(td)` stamps `td.pilot`
+    like that) or a fresh one per task; then the pilots end in the given order (real _pilot_state_cb).  Returns the task
+    states after each end."""
+    tm = stubs.make_tmgr(rp)
+    tm._known_uids = set()
+    tasks, errs, trace = [], [], []
+    td = rp.TaskDescription({'executable': '/bin/true'})
+    for k in range(3):
+        if not reuse: td = rp.TaskDescription({'executable': '/bin/true'})
+        td.uid, td.pilot = 'task.%06d' % k, 'pilot.%04d' % k
+        try: tasks.extend(tm.submit_tasks([td]))
+        except Exception as e: errs.append('submit:' + type(e).__name__)
+    for pid, st in order:
+        try: tm._pilot_state_cb(PilotStub(pid, st))
+        except Exception as e: errs.append('final:' + type(e).__name__)
+        trace.append([t.state for t in tasks])
+    return trace, errs
+
+
+def shared_descr_monitor(order, trace, errs):
+    if errs or any(len(x) != 3 for x in trace):
+        return 'raised: %s (trace %s)' % (errs, trace)
+    ended = set()
+    for (pid, st), states in zip(order, trace):
+        ended.add(pid)
+        for k, s in enumerate(states):
+            if k in ended and s != 'FAILED':
+                return 'pilot %d ended %s: its task %d is %s (trace %s)' % (pid, st, k, s, trace)
+            if k not in ended and s == 'FAILED':
+                return 'pilot %d ended %s: task %d of the living pilot %d is FAILED (trace %s)' % (pid, st, k, k, trace)
+    return None
+
+
+def shared_descr_part(ctx, rp):
+    import itertools
+    n = 0
+    for reuse in (False, True):
+        for perm in itertools.permutations(range(3)):
+            for sts in (('FAILED', 'CANCELED', 'DONE'), ('DONE', 'FAILED', 'CANCELED')):
+                order = [[p, s] for p, s in zip(perm, sts)]
+                trace, errs = run_shared_descr(rp, order, reuse)
+                n += 1
+                ctx.case({'shared_descr': [order, reuse]}, nontrivial=reuse)
+                bad = shared_descr_monitor(order, trace, errs)
+                if bad:
+                    ctx.fail('tasks-of-one-description-object-follow-the-wrong-pilot' if reuse else 'early-bound-tasks-follow-the-wrong-pilot', bad,
+                             {'shared_descr': {'order': order, 'reuse': reuse}})
+    ctx.obligation('tasks bound to three pilots by their descriptions (one description object re-used, or one per task), submitted through the '
+                   'real submit_tasks; the pilots end in every order: each end fails its own task and no other (%d runs)' % n, 'tie', True, '')
+
+
 def contended_part(ctx, rp):
     import itertools
     n = 0
@@ -529,6 +582,7 @@ def run(ctx):
     submit_race_part(ctx, rp)
     activation_race_part(ctx, rp)
     waits_part(ctx, rp)
+    shared_descr_part(ctx, rp)
     tsts = [s for s in rp.states._task_state_values if s is not None]
     psts = [s for s in rp.states._pilot_state_values if s is not None]
     cases = list(CORPUS)
@@ -610,6 +664,12 @@ def replay(ctx, data):
                 if j in dead and (ts != 'FAILED' or 'pilot.%04d' % j not in str(det)): ok = False
                 if j not in dead and ts != ('TMGR_STAGING_INPUT_PENDING' if j in start else 'AGENT_EXECUTING'): ok = False
         return ok
+    if 'shared_descr' in inp:
+        d = inp['shared_descr']
+        trace, errs = run_shared_descr(rp, d['order'], d['reuse'])
+        bad = shared_descr_monitor(d['order'], trace, errs)
+        print(trace, errs, bad)
+        return not bad
     if 'pilot_waits' in inp:
         w = inp['pilot_waits']
         trace, errs = run_with_waits(rp, w['waits'], ['PMGR_LAUNCHING', 'PMGR_ACTIVE', w['final']])
